@@ -879,6 +879,18 @@ def run(ctx, rep):
         raise AnalysisError('tip-state kernels not found')
     # C02.W — merging identical columns into weighted patterns: the weight multiplies the whole per-site log-likelihood (log term and log scalers) in every kernel
     rep.rule('C02.W', "in every pruning kernel the pattern weight multiplies the complete per-site log-likelihood — the log of the root sum and the log scalers — and the sum runs over sites")
+    # the kernels read the traversal they are given: the post-order list IS the tree model's own list (`self.tree_model.postorder`), so a kernel that pops / sorts / extends
+    # it changes the tree every later evaluation — and every other likelihood sharing the tree model — walks
+    for name, f in sorted(lm.functions.items()):
+        if not name.startswith('calculate_treelikelihood'):
+            continue
+        params = {a.arg for a in f.args.args}
+        rebound = {t.id for st in ast.walk(f) if isinstance(st, ast.Assign) for t in st.targets if isinstance(t, ast.Name)}
+        muts = [c for c in ast.walk(f) if isinstance(c, ast.Call) and isinstance(c.func, ast.Attribute) and c.func.attr in ('pop', 'append', 'insert', 'remove', 'sort', 'reverse', 'clear', 'extend')
+                and isinstance(c.func.value, ast.Name) and c.func.value.id in params - rebound and 'index' in c.func.value.id]
+        rep.check('C02.W', f"{name}::the-traversal-it-is-given-is-left-as-it-is", not muts, where(lm, muts[0] if muts else f), {'mutations': [ast.unparse(x)[:40] for x in muts]},
+                  f"{name}: `{ast.unparse(muts[0])[:40] if muts else ''}` changes the traversal list handed to the kernel, which is the tree model's own: the evaluation that does it is "
+                  f"right, the next ones (after a parameter change, or of another likelihood on the same tree) walk a tree without its root")
     nk = 0
     for name, f in sorted(lm.functions.items()):
         if not name.startswith('calculate_treelikelihood'):
